@@ -690,6 +690,9 @@ func dagProblems(ctx context.Context, r *replica, docID string) []string {
 	// field-level commits reachable from the merged composites, per field name
 	fieldSeen := map[string]map[cid.Cid]bool{}
 	fieldParent := map[cid.Cid]bool{}
+	// the document-level commits that link a field-level commit (more than one: the same field commit was
+	// made independently on two replicas - same value, same field parent)
+	linkedFrom := map[cid.Cid]map[cid.Cid]bool{}
 	var walkField func(name string, c cid.Cid)
 	walkField = func(name string, c cid.Cid) {
 		if fieldSeen[name] == nil {
@@ -748,6 +751,10 @@ func dagProblems(ctx context.Context, r *replica, docID string) []string {
 				ps = append(ps, fmt.Sprintf("field link %s of %s does not resolve", l.Link.Cid, c))
 				continue
 			}
+			if linkedFrom[l.Link.Cid] == nil {
+				linkedFrom[l.Link.Cid] = map[cid.Cid]bool{}
+			}
+			linkedFrom[l.Link.Cid][c] = true
 			walkField(l.Name, l.Link.Cid)
 		}
 		if b.Delta.GetPriority() != maxp+1 {
@@ -791,7 +798,36 @@ func dagProblems(ctx context.Context, r *replica, docID string) []string {
 		}
 		sort.Strings(got)
 		if strings.Join(got, ",") != strings.Join(want, ",") {
-			ps = append(ps, fmt.Sprintf("latest commits of field %s are %v, the merged commits of that field without a child are %v", n, got, want))
+			// diagnosis of the listed known finding: nothing is missing, and every extra head is a field commit
+			// that two different document-level commits link (it was merged once more through the second one)
+			wantSet := map[string]bool{}
+			for _, w := range want {
+				wantSet[w] = true
+			}
+			gotSet := map[string]bool{}
+			for _, g := range got {
+				gotSet[g] = true
+			}
+			twice := true
+			for _, w := range want {
+				if !gotSet[w] {
+					twice = false
+				}
+			}
+			for _, g := range got {
+				if wantSet[g] {
+					continue
+				}
+				gc, err := cid.Decode(g)
+				if err != nil || len(linkedFrom[gc]) < 2 {
+					twice = false
+				}
+			}
+			tag := ""
+			if twice {
+				tag = "identical-field-commit: "
+			}
+			ps = append(ps, fmt.Sprintf("%slatest commits of field %s are %v, the merged commits of that field without a child are %v", tag, n, got, want))
 		}
 	}
 	return ps
